@@ -47,7 +47,7 @@ m = {
     "hooks": {
         "guard": "verif",
         "enable": "go build -tags verif (the harness module /verif/harness replaces github.com/goplus/xgo with /repo, so every check compiles /repo's working tree with the tag on)",
-        "baseline_off_cmd": "cd /repo && GOFLAGS=-mod=mod GOPROXY=off GOSUMDB=off go test -json -vet=off -count=1 -timeout 25m ./...",
+        "baseline_off_cmd": "cd /repo && go test -mod=mod -json -vet=off -count=1 -timeout 25m ./...",
         "source_commits": hook_commits,
         "add_only": True,
     },
